@@ -115,6 +115,14 @@ def handleHeap (ws : List String) : String :=
       some (heapOut t target (Heap.reseedChain h (t.size + 2) target))
   | _ => "bad-op"
 
+/-- split a token list at the `|` tokens -/
+def splitBar : List String → List (List String)
+  | [] => [[]]
+  | w :: ws =>
+    match splitBar ws with
+    | [] => [[w]]
+    | seg :: segs => if w == "|" then [] :: seg :: segs else (w :: seg) :: segs
+
 def handle (ws : List String) : String :=
   match ws with
   | "step" :: r :: rest =>
@@ -123,6 +131,18 @@ def handle (ws : List String) : String :=
       match step { t := t, rooted := rooted } op with
       | .ok s => "ok " ++ rRooted s.rooted ++ " " ++ renderStar star s.t
       | .error e => "err " ++ e.render
+    | _, _ => "bad-op"
+  | "run" :: r :: rest =>
+    -- `run <R|U|N> <tree> | <op> <args…> | <op> <args…> …`: a whole history through `C03.run` (operations that do not
+    -- create nodes, so that the ids of the start tree stay valid along the history)
+    match pRooted r, parseTree rest with
+    | some rooted, some (t, rest2) =>
+      let segs := (splitBar rest2).filter (fun l => !l.isEmpty)
+      match segs.mapM (fun seg => (parseOp (seg ++ ["1", "-1", "-", "N", "-"])).map (fun x => x.1)) with
+      | some ops =>
+        let s := run ops { t := t, rooted := rooted }
+        "ok " ++ rRooted s.rooted ++ " " ++ renderStar (maxId t + 1) s.t
+      | none => "bad-op"
     | _, _ => "bad-op"
   | "heap" :: rest => handleHeap rest
   | _ => "bad-op"
